@@ -186,8 +186,11 @@ static void table_scenario_(int oi, int mode, int ke, int kec, int tiny)
 {
     static double const sets0[] = {0, 3, 3, 0, 1, 1, 4, 4};
     double sets[8];
-    int const n = tiny ? 2 : 8;
-    for (int i = 0; i < 8; ++i) { sets[i] = tiny ? -1 + ldexp(1.0, sizeof(a_real) == 4 ? -12 : -27) : sets0[i]; }
+    int const n = tiny == 1 ? 2 : 8;
+    /* tiny = 2: half-integer errors on both flanks of the first set (piecewise-polynomial kinds only: their grades there
+       are exact dyadic numbers) */
+    static double const sets2[] = {-2.5, -1.5, -0.5, 0.5, 1.5, 2.5, 1.5, 0.5};
+    for (int i = 0; i < 8; ++i) { sets[i] = tiny == 2 ? sets2[i] : tiny ? -1 + ldexp(1.0, sizeof(a_real) == 4 ? -12 : -27) : sets0[i]; }
     a_pid_fuzzy ctx;
     a_real te[16], tec[16];
     unsigned char raw[64 + A_PID_FUZZY_BFUZZ(3) + 64];
@@ -477,6 +480,8 @@ controllers:;
         /* joint memberships far below machine epsilon: triangle (index 7) for both inputs, a single rule fires */
         table_scenario_(oi, 1, 7, 7, 1);
         table_scenario_(oi, 2, 7, 7, 1);
+        /* both flanks of the piecewise-polynomial kinds (trapezoid, triangle, linear S / Z, S, Z, Pi: indices 6..12) */
+        for (int k = 6; k < NKINDS; ++k) { table_scenario_(oi, 1 + (k + oi) % 2, k, 6 + (k - 6 + 3) % (NKINDS - 6), 2); }
     }
     for (int mode = 0; mode < 2; ++mode)
     {
